@@ -203,6 +203,7 @@ func ProfileFor(prop string) *Profile {
 		p.RichTags = true
 		p.Prologue = "search"
 		p.PDup = 0.05
+		p.PForged = 0.04
 	case "C13":
 		p.PFront = 1
 		p.PHostile = 0.55
